@@ -315,4 +315,131 @@ theorem owner_total_step (p : Params) {s : State} (h : Inv s) (op : Op) (a' d' :
       unfold endBlock
       simp only [this, if_true]
 
+/-! ### where a lock of the next state comes from -/
+
+theorem mem_setLock_old {ls : List Lock} {n x : Lock} (h : x ∈ setLock ls n) : ∃ l ∈ ls, l.id = x.id := by
+  rcases mem_setLock h with ⟨rfl, o, ho, hid⟩ | ⟨hm, _⟩
+  · exact ⟨o, ho, hid⟩
+  · exact ⟨x, hm, rfl⟩
+
+/-- a lock of the next state continues an existing lock (same id), or has the next fresh id and was
+    made by its owner's own `lock` deposit or split off an own lock by the owner's partial `unlock` -/
+theorem lock_origin (p : Params) {s : State} (h : Inv s) (op : Op) {l' : Lock}
+    (hl' : l' ∈ (step p s op).1.locks) :
+    (∃ l ∈ s.locks, l.id = l'.id) ∨
+    (l'.id = s.lastId + 1 ∧
+      ((∃ amt, op = .lock l'.owner l'.denom amt l'.duration ∧ l'.endTime = none ∧ l'.startedAt = none ∧
+          l'.amount = amt ∧ (step p s op).2 = .ok l'.id) ∨
+       (∃ id x, op = .unlock l'.owner id (some (l'.denom, x)) ∧ l'.endTime = some (s.now + l'.duration) ∧
+          l'.startedAt = some s.now ∧ l'.amount = x ∧
+          ∃ l ∈ s.locks, l.id = id ∧ l.owner = l'.owner ∧ l.denom = l'.denom ∧ l.duration = l'.duration ∧
+            x < l.amount))) := by
+  cases op with
+  | lock a d amt dur =>
+    simp only [step] at hl' ⊢
+    rcases lockTokens_cases p s a d amt dur with ⟨e, he⟩ | ⟨_, _, _, _, t, ht, hc⟩
+    · rw [he] at hl'; exact Or.inl ⟨l', hl', rfl⟩
+    · obtain ⟨fr, _, _⟩ := frame_charge ht
+      rcases hc with ⟨lt, hlt, he⟩ | ⟨_, he⟩
+      · rw [he] at hl'
+        simp only [addToLock, fr.locks] at hl'
+        exact Or.inl (mem_setLock_old hl')
+      · rw [he] at hl' ⊢
+        simp only [createLock, fr.locks, fr.lastId, List.mem_append, List.mem_singleton] at hl'
+        rcases hl' with hm | rfl
+        · exact Or.inl ⟨l', hm, rfl⟩
+        · exact Or.inr ⟨rfl, Or.inl ⟨amt, rfl, rfl, rfl, rfl, rfl⟩⟩
+  | unlock a id c =>
+    simp only [step] at hl' ⊢
+    rcases beginUnlocking_cases s a id c with ⟨e, he⟩ | ⟨lt, hlt, ho, hn, hv, hex, hc⟩
+    · rw [he] at hl'; exact Or.inl ⟨l', hl', rfl⟩
+    · obtain ⟨hmem, hid0⟩ := findLock_some hlt
+      rcases hc with ⟨hp, he⟩ | ⟨_, he⟩
+      · rw [he] at hl'
+        obtain ⟨x, hcx, hx0, hx1, hr⟩ := partial_facts hv hex hp
+        rw [hr] at hl'
+        simp only [splitUnlock, List.mem_append, List.mem_singleton] at hl'
+        rcases hl' with hm | rfl
+        · exact Or.inl (mem_setLock_old hm)
+        · refine Or.inr ⟨rfl, Or.inr ⟨id, x, ?_, rfl, rfl, rfl, lt, hmem, hid0, rfl, rfl, rfl, hx1⟩⟩
+          simp only [ho, hcx]
+      · rw [he] at hl'
+        simp only [startUnlock] at hl'
+        exact Or.inl (mem_setLock_old hl')
+  | extend a id dur =>
+    simp only [step] at hl' ⊢
+    rcases extendLockup_cases s a id dur with ⟨e, he⟩ | ⟨lt, hlt, ho, hn, hd, he⟩
+    · rw [he] at hl'; exact Or.inl ⟨l', hl', rfl⟩
+    · rw [he] at hl'
+      simp only [extendTo] at hl'
+      exact Or.inl (mem_setLock_old hl')
+  | force a id c =>
+    simp only [step] at hl' ⊢
+    rcases forceUnlock_cases p s a id c with ⟨e, he⟩ | ⟨lt, hlt, ho, ha, hv, hex, hc⟩
+    · rw [he] at hl'; exact Or.inl ⟨l', hl', rfl⟩
+    · rcases hc with ⟨hp, t, ht, he⟩ | ⟨_, t, ht, he⟩
+      · rw [he] at hl'
+        obtain ⟨_, h1, _⟩ := fromModule_some ht
+        simp only [shrinkLock, h1] at hl'
+        exact Or.inl (mem_setLock_old hl')
+      · rw [he] at hl'
+        obtain ⟨_, h1, _⟩ := fromModule_some ht
+        simp only [removeLock, h1] at hl'
+        exact Or.inl ⟨l', (mem_delLock.mp hl').1, rfl⟩
+  | beginBlock dt => exact Or.inl ⟨l', hl', rfl⟩
+  | endBlock =>
+    simp only [step] at hl'
+    by_cases hh : minHeightAutoWithdraw ≤ s.height
+    · obtain ⟨s', he, _, _, _, _, hlocks, _⟩ := endBlock_spec h hh
+      rw [he] at hl'
+      change l' ∈ s'.locks at hl'
+      rw [hlocks] at hl'
+      exact Or.inl ⟨l', (List.mem_filter.mp hl').1, rfl⟩
+    · have : s.height < minHeightAutoWithdraw := by omega
+      unfold endBlock at hl'
+      simp only [this, if_true] at hl'
+      exact Or.inl ⟨l', hl', rfl⟩
+
+/-- lock ids are never handed out twice: the counter never goes back -/
+theorem lastId_mono (p : Params) {s : State} (h : Inv s) (op : Op) : s.lastId ≤ (step p s op).1.lastId := by
+  cases op with
+  | lock a d amt dur =>
+    simp only [step]
+    rcases lockTokens_cases p s a d amt dur with ⟨e, he⟩ | ⟨_, _, _, _, t, ht, hc⟩
+    · rw [he]; exact Nat.le_refl _
+    · obtain ⟨fr, _, _⟩ := frame_charge ht
+      rcases hc with ⟨lt, hlt, he⟩ | ⟨_, he⟩
+      · rw [he]; simp only [addToLock, fr.lastId]; exact Nat.le_refl _
+      · rw [he]; simp only [createLock, fr.lastId]; omega
+  | unlock a id c =>
+    simp only [step]
+    rcases beginUnlocking_cases s a id c with ⟨e, he⟩ | ⟨lt, _, _, _, _, _, hc⟩
+    · rw [he]; exact Nat.le_refl _
+    · rcases hc with ⟨_, he⟩ | ⟨_, he⟩
+      · rw [he]; simp only [splitUnlock]; omega
+      · rw [he]; exact Nat.le_refl _
+  | extend a id dur =>
+    simp only [step]
+    rcases extendLockup_cases s a id dur with ⟨e, he⟩ | ⟨lt, _, _, _, _, he⟩
+    · rw [he]; exact Nat.le_refl _
+    · rw [he]; exact Nat.le_refl _
+  | force a id c =>
+    simp only [step]
+    rcases forceUnlock_cases p s a id c with ⟨e, he⟩ | ⟨lt, _, _, _, _, _, hc⟩
+    · rw [he]; exact Nat.le_refl _
+    · rcases hc with ⟨_, t, ht, he⟩ | ⟨_, t, ht, he⟩
+      · obtain ⟨_, _, _, h3, _⟩ := fromModule_some ht
+        rw [he]; simp only [shrinkLock, h3]; omega
+      · obtain ⟨_, _, _, h3, _⟩ := fromModule_some ht
+        rw [he]; simp only [removeLock, h3]; exact Nat.le_refl _
+  | beginBlock dt => exact Nat.le_refl _
+  | endBlock =>
+    simp only [step]
+    by_cases hh : minHeightAutoWithdraw ≤ s.height
+    · obtain ⟨s', he, _, _, _, hlast, _⟩ := endBlock_spec h hh
+      rw [he]; show s.lastId ≤ s'.lastId; omega
+    · have : s.height < minHeightAutoWithdraw := by omega
+      unfold endBlock
+      simp only [this, if_true]; exact Nat.le_refl _
+
 end DymVerif.Lockup
